@@ -80,7 +80,7 @@ def static_unsupported(ast, lang):
             continue
         i = d["id"]
         k = d["kind"]
-        if "RxSlot" in i or "RxT" in i or "RxF" in i or "RxP" in i or "RxC" in i:
+        if "RxSlot" in i or "RxT" in i or "RxF" in i or "RxP" in i or "RxC" in i or "RxR" in i:
             bad[i] = {"status": "rust-family-only-shape"}
         if lang == "cxx":
             if k in ("custom_field_declaration", "checksum_declaration"):
